@@ -110,7 +110,7 @@ func (w *world) logical(real uint64) uint64 {
 }
 
 func waitUntil(what string, cond func() bool) bool {
-	deadline := time.Now().Add(5 * time.Second)
+	deadline := time.Now().Add(20 * time.Second)
 	for i := 0; ; i++ {
 		if cond() {
 			return true
@@ -255,7 +255,8 @@ func (w *world) setup(localhop bool, fibAlg string) string {
 func (w *world) nextSeq() uint64 { w.seq++; return w.seq }
 
 func makeInterest(name enc.Name, nonce uint64) []byte {
-	lt := 50 * time.Millisecond
+	// long enough that an answer always finds its PIT entry, however loaded the machine is
+	lt := 8 * time.Second
 	n := nonce
 	i, err := spec.Spec{}.MakeInterest(name, &ndn.InterestConfig{CanBePrefix: true, MustBeFresh: true, Nonce: &n, Lifetime: &lt}, nil, nil)
 	if err != nil {
